@@ -284,8 +284,9 @@ G_EVENTS = (
     [("p", g, 3, "a", None, 50, 100) for g in (1, 2)]
     + [("p", g, 2, "b", 150, None, None) for g in (1, 2)]
     + [("p", 1, 1, "c", -100, None, None)]
-    + [("t", 30.0), ("t", 31.0), ("s", 0), ("s", 1)]
+    + [("t", 30.25), ("t", 31.0), ("s", 0), ("s", 1)]
 )
+MAX_AGE_G = 60.75  # a maximum age with a fractional part: two 30.25 s steps stay below it, 30.25 s + 31 s do not
 G_EVENTS_T = G_EVENTS + [("p", 2, 1, "c", -100, None, None), ("s", 2), ("t", 1.0)]
 
 
@@ -330,7 +331,7 @@ def e2_groups(args) -> Acc:
         ev = hist[-1]
         viol = []
         for g in (1, 2):
-            live, _ = ref.live_set(group_hist(hist, g), MAX_AGE)
+            live, _ = ref.live_set(group_hist(hist, g), MAX_AGE_G)
             exp = target_of(live, sysb) if live else None
             if ev[0] == "p" and ev[1] == g and live:
                 acc.clauses["stored_target_is_current_target"] += 1
@@ -364,12 +365,12 @@ def e2_groups(args) -> Acc:
             h2 = hist + (ev,)
             acc.transitions += 1
             check(st2, h2)
-            if st2[1] > 2 * MAX_AGE:
+            if st2[1] > 2 * MAX_AGE_G:
                 acc.traces += 1
                 continue
             rec(st2, h2)
 
-    st = (Matryoshka(max_proposal_age=timedelta(seconds=MAX_AGE)), 0.0, 0)
+    st = (Matryoshka(max_proposal_age=timedelta(seconds=MAX_AGE_G)), 0.0, 0)
     for ev in prefix:
         st = apply(st, ev)
     rec(st, tuple(prefix))
@@ -382,7 +383,7 @@ def replay_groups(hist):
     import copy
 
     acc_v = []
-    m = Matryoshka(max_proposal_age=timedelta(seconds=MAX_AGE))
+    m = Matryoshka(max_proposal_age=timedelta(seconds=MAX_AGE_G))
     now, si = 0.0, 0
     for k, ev in enumerate(hist):
         if ev[0] == "p":
@@ -400,7 +401,7 @@ def replay_groups(hist):
     ev = hist[-1]
     for g in (1, 2):
         gh = tuple(("p", e[2], e[3], e[4], e[5], e[6]) if e[0] == "p" else e for e in hist if (e[0] == "p" and e[1] == g) or e[0] == "t")
-        live, _ = ref.live_set(gh, MAX_AGE)
+        live, _ = ref.live_set(gh, MAX_AGE_G)
         exp = target_of(live, sysb) if live else None
         if ev[0] == "p" and ev[1] == g and live:
             stv = m.get_target_power(frozenset({g}))
@@ -457,7 +458,7 @@ def run(tier: str, seed: int, workers: int):
     acc = pmap_acc(_dispatch, shards, workers)
     meta = {
         "rule": "E2c (groups): every sequence to depth 5 (quick) / 6 over {actor a / b proposes for component group 1 or 2, actor c for "
-        "group 1, +30 s, +31 s, the system bounds passed with the calls switch between 2-3 shapes} on ONE Matryoshka, without "
+        "group 1, +30.25 s, +31 s (maximum proposal age 60.75 s), the system bounds passed with the calls switch between 2-3 shapes} on ONE Matryoshka, without "
         "state merging: after every proposal the stored target of its group, and after every event the recomputed target of both "
         "groups, equal what a fresh instance computes from that group's live proposals under the bounds in force.  "
         "E3: 8 system-bounds shapes x all combinations of up to 3 (quick) / 4 (thorough) proposals (priorities with a tie, "
